@@ -732,4 +732,41 @@ def refreshErrors (r : Refresh) : List RefreshErr :=
    | some m => if r.publish - r.prevPublish < 3 * m then [] else [.stale]
    | none => [])
 
+/-! ## error bookkeeping of a session (validator.py:106-147, dash_element.py:129-147)
+
+Errors are opaque here (a natural number identifies one `ValidationError` object).  The
+validator keeps three stores: its own lists (`DashValidator.attrs/elt`: the cross-refresh findings,
+`Failed to load manifest`, `vod != live`), the lists of the current manifest tree, and `history`,
+to which `refresh()` moves the outgoing tree's errors (validator.py:123-126: append
+`prev_manifest.get_errors()`, then `prev_manifest.reset_errors()` – the validator's own lists
+are *not* touched). -/
+
+structure Report where
+  history : List (List Nat)
+  top : List Nat
+  cur : List Nat
+  deriving Repr, DecidableEq
+
+inductive SessionOp
+  /-- some step of the session (load, a `validate()` pass, `sleep()`, the fetch inside
+  `refresh()`) recorded these new errors on the validator itself / in the current tree -/
+  | found (top tree : List Nat)
+  /-- the archiving step of `refresh()` -/
+  | refresh
+  deriving Repr, DecidableEq
+
+def Report.init : Report := { history := [], top := [], cur := [] }
+
+def Report.apply (r : Report) : SessionOp → Report
+  | .found t c => { r with top := r.top ++ t, cur := r.cur ++ c }
+  | .refresh => { history := r.history ++ [r.cur], top := r.top, cur := [] }
+
+/-- `DashValidator.get_errors()` (validator.py:128-133): history, then own lists, then the tree -/
+def Report.final (r : Report) : List Nat := r.history.flatten ++ r.top ++ r.cur
+
+/-- `DashValidator.has_errors()` (validator.py:119-126) -/
+def Report.hasErrors (r : Report) : Bool := !r.final.isEmpty
+
+def runSession (ops : List SessionOp) : Report := ops.foldl Report.apply Report.init
+
 end DashLive.Validator
